@@ -376,3 +376,72 @@ Proof. unfold scroll_down. lia. Qed.
 
 Theorem scroll_init_in_range req len : 1 <= scroll_init req len <= Nat.max (len - 1) 1.
 Proof. unfold scroll_init. lia. Qed.
+
+(** * progress: after the last request the previewer settles, within a bounded number of steps *)
+Definition nosend (l : plabel) : Prop := match l with PSend _ => False | _ => True end.
+
+Definition wk_weight (w : wphase) : nat := match w with WIdle => 0 | WGot _ => 5 | WJoined _ => 4 | WHandle _ => 3 end.
+Definition wt_weight (w : option waiter) : nat :=
+  match w with
+  | None => 0
+  | Some w => if w_done w then 0 else match w_stat w with Running => 2 | _ => 1 end
+  end.
+Definition prank (s : pst) : nat := 6 * List.length (chan s) + wk_weight (wk s) + wt_weight (wt s).
+
+Lemma pstep_rank s l s' : nosend l -> pstep s l = Some s' -> prank s' < prank s.
+Proof.
+  intros Hn Hs. unfold prank. destruct l; cbn in Hn; try contradiction; cbn in Hs.
+  - destruct (wk s) eqn:Hw; try discriminate. destruct (chan s) as [|e r] eqn:Hc; [discriminate|].
+    inversion Hs; subst s'; cbn. lia.
+  - destruct (wk s) eqn:Hw; try discriminate. destruct (wt s) as [w|] eqn:Hwt; [|discriminate].
+    destruct (w_stat w) eqn:Hst; try discriminate. destruct (w_done w) eqn:Hd; [discriminate|].
+    inversion Hs; subst s'; cbn; rewrite ?Hw; cbn; rewrite ?Hd, ?Hst; lia.
+  - destruct (wk s) eqn:Hw; try discriminate. destruct (wt s) as [w|] eqn:Hwt.
+    + destruct (w_done w) eqn:Hd; [|discriminate]. inversion Hs; subst s'; cbn; rewrite ?Hd; lia.
+    + inversion Hs; subst s'; cbn. lia.
+  - destruct (wk s) eqn:Hw; try discriminate. inversion Hs; subst s'; cbn. lia.
+  - destruct (wk s) as [ |e|e|e] eqn:Hw; try discriminate. destruct (snd e); inversion Hs; subst s'; cbn.
+    + destruct (wt_weight (wt s)); lia.
+    + lia.
+    + lia.
+  - destruct (wt s) as [w|] eqn:Hwt; [|discriminate]. destruct (w_stat w) eqn:Hst; try discriminate.
+    destruct (w_done w) eqn:Hd; [discriminate|]. inversion Hs; subst s'; cbn; rewrite ?Hd, ?Hst; lia.
+  - destruct (wt s) as [w|] eqn:Hwt; [|discriminate]. destruct (w_done w) eqn:Hd; [discriminate|].
+    destruct (w_stat w) eqn:Hst; try discriminate; inversion Hs; subst s'; cbn; rewrite ?Hd, ?Hst; lia.
+Qed.
+
+(** without further requests every run is at most [prank s] steps long *)
+Theorem settles_bounded ls : forall s s', Forall nosend ls -> prun s ls = Some s' -> List.length ls + prank s' <= prank s.
+Proof.
+  induction ls as [|l r IH]; intros s s' Hf Hr; cbn [prun] in Hr; cbn [List.length].
+  - inversion Hr; subst. lia.
+  - inversion Hf as [|? ? Hl Hr']; subst. destruct (pstep s l) as [s1|] eqn:Hs; [|discriminate].
+    pose proof (pstep_rank _ _ _ Hl Hs). specialize (IH _ _ Hr' Hr). lia.
+Qed.
+
+(** and a state that is not settled has an enabled step other than a new request (a running
+    child's own exit is one of them: the preview command is assumed to terminate) *)
+Theorem unsettled_enabled s : ~ psettled s -> exists l s', nosend l /\ pstep s l = Some s'.
+Proof.
+  intros Hn. destruct (wk s) as [ |e|e|e] eqn:Hw.
+  - destruct (chan s) as [|e r] eqn:Hc.
+    + destruct (wt s) as [w|] eqn:Hwt.
+      * destruct (w_done w) eqn:Hd.
+        -- exfalso. apply Hn. unfold psettled. rewrite Hc, Hw, Hwt. auto.
+        -- destruct (w_stat w) eqn:Hst.
+           ++ exists PChildExit. eexists. split; [exact I|]. cbn. rewrite Hwt, Hst, Hd. reflexivity.
+           ++ exists PWaiter. eexists. split; [exact I|]. cbn. rewrite Hwt, Hd, Hst. reflexivity.
+           ++ exists PWaiter. eexists. split; [exact I|]. cbn. rewrite Hwt, Hd, Hst. reflexivity.
+      * exfalso. apply Hn. unfold psettled. rewrite Hc, Hw, Hwt. auto.
+    + exists PRecv. eexists. split; [exact I|]. cbn. rewrite Hw, Hc. reflexivity.
+  - destruct (wt s) as [w|] eqn:Hwt.
+    + destruct (w_done w) eqn:Hd.
+      * exists PJoin. eexists. split; [exact I|]. cbn. rewrite Hw, Hwt, Hd. reflexivity.
+      * destruct (w_stat w) eqn:Hst.
+        -- exists PKill. eexists. split; [exact I|]. cbn. rewrite Hw, Hwt, Hst, Hd. reflexivity.
+        -- exists PWaiter. eexists. split; [exact I|]. cbn. rewrite Hwt, Hd, Hst. reflexivity.
+        -- exists PWaiter. eexists. split; [exact I|]. cbn. rewrite Hwt, Hd, Hst. reflexivity.
+    + exists PJoin. eexists. split; [exact I|]. cbn. rewrite Hw, Hwt. reflexivity.
+  - exists PDrain. eexists. split; [exact I|]. cbn. rewrite Hw. reflexivity.
+  - destruct (snd e) eqn:Hk; exists PHandle; eexists; (split; [exact I|]); cbn; rewrite Hw, Hk; reflexivity.
+Qed.
